@@ -449,6 +449,54 @@ fn chk_nth(s: &dyn Surface<Item = E>, x: &Expect, bp: usize, out: &mut Out) {
     });
 }
 
+/// The iterator adaptors a type may override (`fold`, `try_fold`, `count`, `last`, `size_hint`, `for_each`, ...):
+/// after k items taken with `next`, each must see exactly the remaining cells in order.
+fn chk_adaptors(s: &dyn Surface<Item = E>, x: &Expect, bp: usize, out: &mut Out) {
+    guard(out, "adaptors", |out| {
+        let off = |r: &E| addr(r).wrapping_sub(bp) / SZ;
+        for k in 0..=x.n {
+            let want: Vec<usize> = x.offs[k..].to_vec();
+            let advanced = || {
+                let mut it = s.iter();
+                for _ in 0..k {
+                    it.next();
+                }
+                it
+            };
+            let folded = advanced().fold(Vec::new(), |mut v, r| {
+                v.push(off(r));
+                v
+            });
+            ensure!(out, folded == want, "adaptors", "fold", "after {} items fold visits parent offsets {:?}, model {:?}", k, folded, want);
+            let mut each = vec![];
+            advanced().for_each(|r| each.push(off(r)));
+            ensure!(out, each == want, "adaptors", "for_each", "after {} items for_each visits {:?}, model {:?}", k, each, want);
+            let collected: Vec<usize> = advanced().map(off).collect();
+            ensure!(out, collected == want, "adaptors", "collect", "after {} items collect gives {:?}, model {:?}", k, collected, want);
+            let cnt = advanced().count();
+            ensure!(out, cnt == want.len(), "adaptors", "count", "after {} items count() = {}, model {}", k, cnt, want.len());
+            let last = advanced().last().map(off);
+            ensure!(out, last == want.last().copied(), "adaptors", "last", "after {} items last() is {:?}, model {:?}", k, last, want.last());
+            let (lo, hi) = advanced().size_hint();
+            ensure!(out, lo <= want.len() && hi.map_or(true, |h| h >= want.len()), "adaptors", "size_hint",
+                "after {} items size_hint() = ({}, {:?}) but {} items remain", k, lo, hi, want.len());
+            // try_fold family: stop at the j-th remaining item
+            for j in 0..want.len() {
+                let mut it = advanced();
+                let found = it.find(|r| off(r) == want[j]).map(off);
+                ensure!(out, found == Some(want[j]), "adaptors", "find", "after {} items find(item {}) = {:?}", k, j, found);
+                let next = it.next().map(off);
+                ensure!(out, next == want.get(j + 1).copied(), "adaptors", "find-then-next",
+                    "after {} items and find(item {}) next() is {:?}, model {:?}", k, j, next, want.get(j + 1));
+                let pos = Iterator::position(&mut advanced(), |r| off(r) == want[j]);
+                ensure!(out, pos == Some(j), "adaptors", "position", "after {} items position(item {}) = {:?}", k, j, pos);
+            }
+            let all = advanced().all(|r| want.contains(&off(r)));
+            ensure!(out, all, "adaptors", "all", "after {} items all() sees a cell outside the remaining ones", k);
+        }
+    });
+}
+
 fn chk_map(s: &dyn Surface<Item = E>, x: &Expect, bp: usize, out: &mut Out) {
     guard(out, "map", |out| {
         let mut calls: Vec<(Position, usize)> = vec![];
@@ -514,6 +562,7 @@ fn read_battery(s: &dyn Surface<Item = E>, x: &Expect, bp: usize, out: &mut Out)
     chk_get(s, x, bp, out);
     chk_iter(s, x, bp, out);
     chk_nth(s, x, bp, out);
+    chk_adaptors(s, x, bp, out);
     chk_map(s, x, bp, out);
     chk_untouched(s, x, "read-untouched", out);
     true
